@@ -130,7 +130,18 @@ def r13_3(ctx):
     key = [s for s in own_nodes(cv.node) if isinstance(s, ast.Assign) and src(s.targets[0]) == 'cache_key']
     if not key:
         raise AnchorMissing('R13.3: cache_key')
-    in_key = {n.id for n in ast.walk(key[0].value) if isinstance(n, ast.Name) and n.id in params}
+    # parameters that flow into the key, through local names if necessary
+    frontier = {n.id for n in ast.walk(key[0].value) if isinstance(n, ast.Name)}
+    seen_names = set()
+    while frontier:
+        nm = frontier.pop()
+        if nm in seen_names:
+            continue
+        seen_names.add(nm)
+        for s in own_nodes(cv.node):
+            if isinstance(s, ast.Assign) and any(src(t) == nm for t in s.targets) and s.lineno <= key[0].lineno:
+                frontier |= {n.id for n in ast.walk(s.value) if isinstance(n, ast.Name)}
+    in_key = {n for n in seen_names if n in params}
     for p in sorted(flowing):
         ctx.decide('R13.3', cv.qual, 'parameter %r reaches generate() and the cache key' % p, p in in_key, key[0],
                    'cache_key = %s' % src(key[0].value))
